@@ -41,6 +41,7 @@ def corpus(env):
             for mode in gen.MODES:
                 s = cw.session(kem, kdf, aead, sid="k%04x_%d_%04x_%d" % (kem, kdf, aead, mode))
                 s.call("sizes")
+                s.call("errfmt")
                 gen.add_pair(s, g, kem, mode, info=g.rbytes(rnd.choice([0, 10])))
                 if aead != 0xFFFF:
                     aad0 = g.rbytes(rnd.choice([0, 4]))
